@@ -95,7 +95,7 @@ func (c c07PruneCase) String() string {
 
 // c07RunPruneCase drives one straight-line history through a fresh handler instance.
 func c07RunPruneCase(c c07PruneCase) explore.CaseResult {
-	cfg := &c07Cfg{ecn: []protocol.ECN{protocol.ECNNon}, forget: true, ticks: true}
+	cfg := &c07Cfg{ecn: []protocol.ECN{protocol.ECNNon}, forget: true, forgetOld: true, ticks: true}
 	cfg.U[c.space] = c07PruneU
 	in := newC07Inst(cfg)
 	s := in.sp[c.space]
